@@ -30,6 +30,16 @@ theorem walk_is_depth_first (n : Bytes) (kids : List Node) (p : List Bytes) :
 theorem walk_visits_each_node_once (t : Node) (p : List Bytes) : (t.walk p).Perm (t.preorder p) :=
   walk_perm_preorder t p
 
+/-- **An alias of a folder is one folder item without children**: its walk is the single entry of the alias
+    (nothing below the target is visited under the alias's path), its header announces a folder, and nothing
+    follows the header whatever the client answers. -/
+theorem folder_alias_is_one_folder_item (n : Bytes) (p : List Bytes) (a : Action) :
+    (Node.folderAlias n).walk p = [⟨p, n, none⟩] ∧
+    (⟨p, n, none⟩ : Entry).isDir = true ∧
+    (⟨p, n, none⟩ : Entry).header = fileHeader (joinSlash p) true ∧
+    (itemOut ⟨p, n, none⟩ a).body = [] :=
+  ⟨walk_folderAlias n p, rfl, rfl, by simp [itemOut]⟩
+
 -- ---------------------------------------------------------------- item count = item headers
 
 /-- **The announced item count (reply field 220) equals the number of item headers sent** to a client
